@@ -86,7 +86,7 @@ class MG94(SymmetricSubstitutionModel):
     def handle_parameter_changed(
         self, variable: AbstractParameter, index, event
     ) -> None:
-        self.fire_parameter_changed()
+        self.fire_model_changed()
 
     @classmethod
     def from_json(cls, data, dic):
